@@ -10,7 +10,7 @@ LIBSRCS = fiber_context fiber_manager fiber_mutex fiber_semaphore fiber_spinlock
           fiber_io fiber_rwlock hazard_pointer work_stealing_deque work_queue fiber_scheduler_wsd fiber_event_native
 LIBOBJS = $(patsubst %,$(B)/lib/%.o,$(LIBSRCS))
 RTOBJS = $(B)/rt/sim.o $(B)/rt/kernel.o $(B)/rt/lin.o $(B)/rt/glue.o
-WRAP = -Wl,--wrap=pthread_create,--wrap=pthread_join,--wrap=dlsym,--wrap=epoll_create,--wrap=epoll_create1,--wrap=epoll_ctl,--wrap=epoll_wait,--wrap=timerfd_create,--wrap=timerfd_settime,--wrap=getrlimit,--wrap=setsockopt,--wrap=getsockopt,--wrap=fiber_scheduler_schedule,--wrap=fiber_scheduler_next,--wrap=wsd_work_stealing_deque_push_bottom,--wrap=wsd_work_stealing_deque_pop_bottom,--wrap=wsd_work_stealing_deque_steal,--wrap=hazard_pointer_scan,--wrap=fiber_manager_get
+WRAP = -Wl,--wrap=pthread_create,--wrap=pthread_join,--wrap=dlsym,--wrap=epoll_create,--wrap=epoll_create1,--wrap=epoll_ctl,--wrap=epoll_wait,--wrap=timerfd_create,--wrap=timerfd_settime,--wrap=getrlimit,--wrap=setsockopt,--wrap=getsockopt,--wrap=fiber_scheduler_schedule,--wrap=fiber_scheduler_next,--wrap=wsd_work_stealing_deque_push_bottom,--wrap=wsd_work_stealing_deque_pop_bottom,--wrap=wsd_work_stealing_deque_steal,--wrap=hazard_pointer_scan,--wrap=fiber_manager_get,--wrap=fiber_spinlock_lock,--wrap=fiber_spinlock_trylock,--wrap=fiber_spinlock_unlock
 HARNESSES = $(patsubst /verif/harness/%.c,%,$(wildcard /verif/harness/c*.c))
 BINS = $(patsubst %,$(B)/h_%,$(HARNESSES))
 
